@@ -70,7 +70,26 @@ fn lex_reference(x: &[f64], y: &[f64]) -> Option<Ordering> {
 fn run_insertion_cost(ctx: &RunCtx, report: &mut Report) {
     let alphabet = [-1., -0.0, 0.0, 0.5, 1., 2.];
     let max_len = ctx.tier.pick(3, 4);
-    let vectors = cost_vectors(&alphabet, max_len);
+    let mut vectors = cost_vectors(&alphabet, max_len);
+    // long vectors (more components than the inline capacity of the cost type): at most two non-zero entries anywhere
+    for len in 5..=ctx.tier.pick(8, 9) {
+        vectors.push(vec![0.; len]);
+        let vals = [1., 2., -1.];
+        for i in 0..len {
+            for a in vals {
+                let mut v = vec![0.; len];
+                v[i] = a;
+                vectors.push(v.clone());
+                for j in i + 1..len {
+                    for b in vals {
+                        let mut w = v.clone();
+                        w[j] = b;
+                        vectors.push(w);
+                    }
+                }
+            }
+        }
+    }
     let costs: Vec<InsertionCost> = vectors.iter().map(|v| InsertionCost::new(v)).collect();
     let n = vectors.len();
     report.set("cost_vectors", n as u64);
@@ -256,8 +275,10 @@ fn run_goals(ctx: &RunCtx, report: &mut Report) {
         Arc::new(|_| {}),
         false,
     ));
-    let alphabet: Vec<f64> =
-        ctx.tier.pick(vec![-1., -0.0, 0.0, 1., f64::MAX, f64::NAN], vec![-1., -0.0, 0.0, 1., 2., f64::MAX, f64::MIN_POSITIVE, f64::NAN]);
+    // includes neighbours which differ by less than machine epsilon (must still be ordered)
+    let next_up = |x: f64| f64::from_bits(x.to_bits() + 1);
+    let full: Vec<f64> = vec![-1., -0.0, 0.0, 1.5e-16, 3e-16, 0.5, next_up(0.5), 1., next_up(1.), 2., f64::MAX, f64::MIN_POSITIVE, f64::NAN];
+    let reduced: Vec<f64> = ctx.tier.pick(vec![-1., -0.0, 0.0, 1.5e-16, 0.5, next_up(0.5), f64::NAN], vec![-1., -0.0, 0.0, 1.5e-16, 3e-16, 0.5, next_up(0.5), 1., f64::MAX, f64::NAN]);
     let configs: Vec<(Vec<Layer>, usize)> = vec![
         (vec![Layer::Single(0)], 1),
         (vec![Layer::Single(0), Layer::Single(1)], 2),
@@ -269,6 +290,7 @@ fn run_goals(ctx: &RunCtx, report: &mut Report) {
     for (layers, dims) in configs {
         let single_only = layers.iter().all(|l| matches!(l, Layer::Single(_)));
         let goal = build_goal(&layers);
+        let alphabet = if dims <= 2 { full.clone() } else { reduced.clone() };
         let vectors: Vec<Vec<f64>> = {
             let mut out = vec![];
             product(&vec![alphabet.len(); dims], |idx| out.push(idx.iter().map(|i| alphabet[*i]).collect()));
